@@ -151,6 +151,16 @@ class _FalsyError(Exception):
 
 
 TYPED_EXC["FalsyError"] = _typed(_FalsyError)
+
+
+class ScriptGroup(ExceptionGroup, Scripted):
+    """An exception group with a single member (what asyncio.TaskGroup raises for one failing child)."""
+
+    def __new__(cls, msg, excs):
+        return super().__new__(cls, msg, excs)
+
+    def derive(self, excs):
+        return ScriptGroup(self.message, excs)
 CHAIN_TYPES = {"CircuitOpenError": CircuitOpenError, "AbortRetryError": AbortRetryError, "KeyError": KeyError, "TimeoutError": TimeoutError}
 
 
@@ -158,6 +168,12 @@ def make_script_exc(etype: str | None, idx: int, klass: str, ra: Any, as_obj: bo
     """The operation's exception may be of any type (builtin TimeoutError, OSError, ... included)."""
     if not etype:
         return ScriptExc(idx, klass, ra, as_obj)
+    if etype.startswith("Group:"):
+        # the member would be classified differently from the group as a whole
+        member = ScriptExc(idx, etype.split(":", 1)[1], None, False)
+        x = ScriptGroup(f"scripted group {klass} #{idx}", [member])
+        x.idx, x.klass, x.ra, x.as_obj = idx, klass, ra, as_obj
+        return x
     x = TYPED_EXC[etype](f"scripted {klass} #{idx}")
     x.idx, x.klass, x.ra, x.as_obj = idx, klass, ra, as_obj
     return x
@@ -390,10 +406,17 @@ class Env:
                 r = FalsyRes(i, klass, e.get("ra"), e.get("as_obj", False))
             elif e.get("rval") == "awaitable":
                 r = AwaitableRes(i, klass, e.get("ra"), e.get("as_obj", False))
+            elif e.get("rval") == "exc_instance":
+                r = ValueError(f"a failure object returned as a value #{i}")  # e.g. an entry of a return_exceptions batch
             else:
                 r = Res(i, klass, e.get("ra"), e.get("as_obj", False))
             self.objs[i] = r
             return r
+        if kind == "exc" and e.get("reraise_prev") and isinstance(self.objs.get(i - 1), Scripted) and getattr(self.objs[i - 1], "klass", None) == e["klass"]:
+            # the very same exception instance again (a stored failure, Future.result() of a failed future)
+            x = self.objs[i - 1]
+            self.objs[i] = x
+            raise x
         if kind == "exc":
             x: BaseException = make_script_exc(e.get("etype"), i, e["klass"], e.get("ra"), e.get("as_obj", False))
             ch = e.get("chain")
@@ -466,7 +489,7 @@ class Env:
 
     def result_classifier(self, res: Any):
         i = self.tick("result_classifier")
-        if res is None and getattr(self, "pending", None) is not None:
+        if not isinstance(res, Res) and getattr(self, "pending", None) is not None:
             idx, e = self.pending
             klass = e.get("klass") if e["kind"] == "res" else None
             ra, as_obj = e.get("ra"), e.get("as_obj", False)
@@ -574,12 +597,19 @@ class Env:
         i = self.n["sleep"]
         self.n["sleep"] += 1
         self.trace.append(("sleep", where, s, self.now(), self.clock.rel()))
+        mf = self.call.get("midflight")
+        if mf and mf.get("at_sleep") == i:
+            apply_reconfigure(self, mf["set"])  # e.g. a config reload that happens while a call is backing off
         self.jump("sleep", i)
         over = self.call.get("overshoot") or []
         extra = over[i] if i < len(over) else 0
         skip = isinstance(extra, dict) and extra.get("skip")
-        if isinstance(s, (int, float)) and math.isfinite(s) and s > 0 and not skip:
-            self.clock.t += s  # a sleeper may also return early ("skip": e.g. an interruptible wait)
+        try:
+            fs = float(s)  # the delay may be a Decimal / Fraction
+        except (TypeError, ValueError, OverflowError):
+            fs = 0.0
+        if math.isfinite(fs) and fs > 0 and not skip:
+            self.clock.t += fs  # a sleeper may also return early ("skip": e.g. an interruptible wait)
         if self.call.get("overshoot_s"):
             o = self.call["overshoot_s"]
             self.clock.t += o[i] if i < len(o) else 0.0
@@ -619,7 +649,14 @@ class Env:
         def awaitable_obj_sleeper(s):
             return AwaitableObj(env.on_sleep_async(where, s))  # awaitable, but not a coroutine (like a Future)
 
-        return {"sync": sleeper, "async": asleeper, "awaitable": awaitable_sleeper, "awaitable_obj": awaitable_obj_sleeper}[flavour]
+        import types as _types
+
+        @_types.coroutine
+        def gen_sleeper(s):
+            # a generator-based coroutine: awaitable although it has no __await__ attribute
+            yield from env.on_sleep_async(where, s).__await__()
+
+        return {"sync": sleeper, "async": asleeper, "awaitable": awaitable_sleeper, "awaitable_obj": awaitable_obj_sleeper, "gen_coroutine": gen_sleeper}[flavour]
 
     # --- handler / hooks -----------------------------------------------------
     def make_handler(self, where: str):
@@ -664,7 +701,13 @@ class Env:
         def awaitable_obj_before(ctx, s):
             return AwaitableObj(abefore(ctx, s))
 
-        return {"sync": before, "async": abefore, "awaitable": awaitable_before, "awaitable_obj": awaitable_obj_before}[flavour]
+        import types as _types
+
+        @_types.coroutine
+        def gen_before(ctx, s):
+            yield from abefore(ctx, s).__await__()
+
+        return {"sync": before, "async": abefore, "awaitable": awaitable_before, "awaitable_obj": awaitable_obj_before, "gen_coroutine": gen_before}[flavour]
 
     def on_metric(self, event, attempt, sleep_s, tags):
         i = self.tick("on_metric")
@@ -762,7 +805,7 @@ def make_breaker(env: Env, spec: dict) -> SpyBreaker:
         kw["class_thresholds"] = {ErrorClass[k]: v for k, v in spec["class_thresholds"].items()}
     real = CircuitBreaker(**kw)
     pre = spec.get("pre")
-    if pre in ("open", "half_open_ready", "probe_taken"):
+    if pre in ("open", "half_open_ready", "probe_taken", "probe_released"):
         # open the circuit through its public API, then (optionally) wait out the recovery timeout
         trip = sorted(spec.get("trip_on") or ["TRANSIENT"])[0] if spec.get("trip_on") != [] else None
         if spec.get("class_thresholds"):
@@ -773,11 +816,13 @@ def make_breaker(env: Env, spec: dict) -> SpyBreaker:
             real.record_failure(ErrorClass[trip])
         if real.state.value != "open":
             raise HarnessError("breaker prelude failed to open the circuit")
-        if pre in ("half_open_ready", "probe_taken"):
+        if pre in ("half_open_ready", "probe_taken", "probe_released"):
             env.clock.t += kw["recovery_timeout_s"]
-        if pre == "probe_taken":
+        if pre in ("probe_taken", "probe_released"):
             if not real.allow().allowed:
                 raise HarnessError("breaker prelude: probe not admitted")
+        if pre == "probe_released":
+            real.record_cancel()  # an earlier probe was aborted: half-open, slot free
     return SpyBreaker(env, real)
 
 
